@@ -31,6 +31,7 @@
   (tag `C04:T3-tcp-servfail-after-udp-overflow`, corpus/C04).
 -/
 import QV.Proofs.ServerAnswer
+import QV.Proofs.Writer
 
 namespace QV.C04
 open QV QV.Writer QV.Server QV.Zone QV.Spec.Zone QV.Spec.Resolve QV.ServerAnswer
@@ -51,6 +52,28 @@ def SizeInv (s : Writer.State) : Prop :=
 def C04_T1_full : Prop :=
   ∀ (s : Writer.State) (macFn : Writer.Tsig → List UInt8 → List UInt8) (bytes : Bytes) (mac : Option (List UInt8)),
     SizeInv s → Writer.finish s macFn = .ok (bytes, mac) → bytes.size ≤ s.limit
+
+/-- **T1 holds**: from the writer's size invariant alone, whatever `finish` hands back fits the
+    limit (the writer's theorem `QV.Writer.finish_size_le_limit'`, C12 (b)) -/
+theorem C04_T1 : C04_T1_full := by
+  intro s macFn bytes mac hs hf
+  obtain ⟨h1, h2, _⟩ := hs
+  have hres : s.limit - s.available =
+      (if s.edns.isSome then Gen.OPT_RECORD_SIZE else 0) + Writer.tsigReserved s.tsig := by
+    have : reserved s = (if s.edns.isSome then Gen.OPT_RECORD_SIZE else 0) + Writer.tsigReserved s.tsig := by
+      unfold reserved Writer.tsigReserved
+      cases s.tsig <;> rfl
+    omega
+  exact Writer.finish_size_le_limit' macFn s h1 (by omega) hres bytes mac hf
+
+/-- the size invariant is the size part of the writer's invariant `QV.Writer.Inv`, which
+    `Writer::new` establishes and every public call keeps (C12 (a)) -/
+theorem C04_sizeInv_of_inv (s : Writer.State) (h : Writer.Inv s) : SizeInv s := by
+  refine ⟨h.cur_av, ?_, h.lim_size⟩
+  have h1 := h.reserved
+  have h2 := h.av_lim
+  have : reserved s = s.limit - s.available := by rw [h1]; rfl
+  omega
 
 /-- two writer states that differ only in how much room there is -/
 def SameButLimit (s1 s2 : Writer.State) : Prop :=
